@@ -22,14 +22,17 @@ Section Write.
 
   (* string fields never hold a bool (only the isSystem flag does) *)
   Definition nobool (l : alist fval) : Prop := forall f b, f <> isSystemF -> al_get f l <> Some (FBool b).
+  (* an entity lives in at most one child store (child data is written by Create only) *)
+  Definition ec_one (e : entity) : Prop :=
+    forall c1 c2, al_get c1 (e_c e) <> None -> al_get c2 (e_c e) <> None -> c1 = c2.
   Definition ent_nobool (e : entity) : Prop :=
-    nobool (e_f e) /\ (forall s1 cd, al_get s1 (e_c e) = Some cd -> nobool cd).
+    (nobool (e_f e) /\ (forall s1 cd, al_get s1 (e_c e) = Some cd -> nobool cd)) /\ ec_one e.
   Definition FieldsStr (st : state) : Prop := forall r j e, get_ent st r j = Some e -> ent_nobool e.
 
   Lemma FieldsStr_get_field st s j f b : FieldsStr st -> f <> isSystemF -> get_field sch st s j f <> FBool b.
   Proof.
     intros H Hf. unfold get_field. destruct (get_ent st (root_of sch s) j) as [e|] eqn:E; [|discriminate].
-    destruct (H _ _ _ E) as [A B]. unfold ent_field.
+    destruct (H _ _ _ E) as [[A B] _]. unfold ent_field.
     assert (Hef : match al_get f (e_f e) with Some v => v | None => FAbsent end <> FBool b).
     { destruct (al_get f (e_f e)) as [v|] eqn:Ev; [|discriminate]. intros ->. exact (A f b Hf Ev). }
     destruct (find_store sch s) as [d|]; [|exact Hef].
@@ -46,9 +49,10 @@ Section Write.
       exists s nl, root_of sch s = r /\ In (CUnique f nl) (cons_of sch s) /\
                    nonempty v = true /\ present sch st s x = true /\ fbytes st s x f = v.
   Definition SSoundAt (st : state) (r f : name) : Prop :=
-    forall v x, In x (sbucket st r f v) -> In (CSetIdx f) (cons_of sch r) /\ In v (eset st r x f).
+    forall v x, In x (sbucket st r f v) ->
+      exists s, root_of sch s = r /\ In (CSetIdx f) (cons_of sch s) /\ present sch st s x = true /\ In v (eset st r x f).
   Definition BSoundAt (st : state) (t b : name) : Prop :=
-    forall s f nl ti x, In (CFkIndex f t b nl) (cons_of sch s) -> In x (eset st t ti b) ->
+    forall s f nl ti x, In (CFkIndex f t b nl) (cons_of sch s) -> In x (eset st (root_of sch t) ti b) ->
       nonempty ti = true /\ present sch st s x = true /\ fbytes st s x f = ti.
 
   Lemma BSound_at st : BSound st <-> forall t b, BSoundAt st t b.
@@ -72,26 +76,28 @@ Section Write.
           ((present sch st s x = true /\ fbytes st s x f = v) \/
            (r = R /\ x = i /\ present sch st0 s i = true /\ fbytes st0 s i f = v)).
     Definition MidSAt (st : state) (r f : name) : Prop :=
-      forall v x, In x (sbucket st r f v) -> In (CSetIdx f) (cons_of sch r) /\
-        (In v (eset st r x f) \/ (r = R /\ x = i /\ In v (eset st0 R i f))).
+      forall v x, In x (sbucket st r f v) -> exists s, root_of sch s = r /\ In (CSetIdx f) (cons_of sch s) /\
+        ((present sch st s x = true /\ In v (eset st r x f)) \/
+         (r = R /\ x = i /\ present sch st0 s i = true /\ In v (eset st0 R i f))).
     Definition MidBAt (st : state) (t b : name) : Prop :=
-      forall s f nl ti x, In (CFkIndex f t b nl) (cons_of sch s) -> In x (eset st t ti b) ->
+      forall s f nl ti x, In (CFkIndex f t b nl) (cons_of sch s) -> In x (eset st (root_of sch t) ti b) ->
         nonempty ti = true /\
         ((present sch st s x = true /\ fbytes st s x f = ti) \/
-         (s = R /\ x = i /\ present sch st0 s i = true /\ fbytes st0 s i f = ti)).
+         (root_of sch s = R /\ x = i /\ present sch st0 s i = true /\ fbytes st0 s i f = ti)).
 
     (* what the fk-index hook of store s (root R) on entity i guarantees once it has run *)
     Definition FAt (st : state) (s f t b : name) : Prop :=
-      forall v, get_field sch st s i f = FStr v -> nonempty v = true -> In i (eset st t v b).
+      forall v, get_field sch st s i f = FStr v -> nonempty v = true ->
+        In i (eset st (root_of sch t) v b) /\ present sch st t v = true.
     (* ... and before it has run the back-references of i are still the ones of st0 *)
     Definition PreF (st : state) (s f t b : name) : Prop :=
-      FAt st s f t b \/ (forall v, In i (eset st0 t v b) -> In i (eset st t v b)).
+      FAt st s f t b \/ (forall v, In i (eset st0 (root_of sch t) v b) -> In i (eset st (root_of sch t) v b)).
 
     Definition Mid (st : state) : Prop :=
       (forall r f, MidUAt st r f) /\ (forall r f, MidSAt st r f) /\ (forall t b, MidBAt st t b) /\
       FSound G1 st /\ CSound G1 st /\ LSound gnone st /\
       (forall s f t b nl, In (CFkIndex f t b nl) (cons_of sch s) -> root_of sch s = R -> PreF st s f t b) /\
-      (forall r j, get_ent st0 r j <> None -> get_ent st r j <> None).
+      (forall s j, present sch st0 s j = true -> present sch st s j = true).
 
     Lemma USoundAt_Mid st r f : USoundAt st r f -> MidUAt st r f.
     Proof.
@@ -99,7 +105,7 @@ Section Write.
       repeat split; try assumption. left. split; assumption.
     Qed.
     Lemma SSoundAt_Mid st r f : SSoundAt st r f -> MidSAt st r f.
-    Proof. intros H v x Hx. destruct (H v x Hx) as [A B]. split; [exact A | left; exact B]. Qed.
+    Proof. intros H v x Hx. destruct (H v x Hx) as [s [A0 [A [P B]]]]. exists s. split; [exact A0|]. split; [exact A | left; split; assumption]. Qed.
     Lemma BSoundAt_Mid st t b : BSoundAt st t b -> MidBAt st t b.
     Proof.
       intros H s f nl ti x Hin Hx. destruct (H s f nl ti x Hin Hx) as [A [B C]].
@@ -110,9 +116,9 @@ Section Write.
     Definition DoneK (st : state) (s : name) (k : cons) : Prop :=
       match k with
       | CUnique f _ => USoundAt st (root_of sch s) f
-      | CSetIdx f => SSoundAt st s f
+      | CSetIdx f => SSoundAt st (root_of sch s) f
       | CFkIndex f t b _ => BSoundAt st t b /\ FAt st s f t b
-      | CFkCons f t _ => forall v, get_field sch st s i f = FStr v -> nonempty v = true -> get_ent st t v <> None
+      | CFkCons f t _ => forall v, get_field sch st s i f = FStr v -> nonempty v = true -> present sch st t v = true
       | _ => True
       end.
     Definition FAtAll (st : state) (t b : name) : Prop :=
@@ -124,9 +130,10 @@ Section Write.
       Hypothesis Hfc : ents_fc_eq st st'.
       Hypothesis HU : forall r f, USoundAt st' r f \/ uidx st' r f = uidx st r f.
       Hypothesis HS : forall r f, SSoundAt st' r f \/ (forall v z, In z (sbucket st' r f v) -> In z (sbucket st r f v)).
-      Hypothesis HSet : forall r j f z, In (CSetIdx f) (cons_of sch r) -> In z (eset st r j f) -> In z (eset st' r j f).
+      Hypothesis HSet : forall s0 j f0 z, In (CSetIdx f0) (cons_of sch s0) ->
+        In z (eset st (root_of sch s0) j f0) -> In z (eset st' (root_of sch s0) j f0).
       Hypothesis HB : forall t b, (BSoundAt st' t b /\ FAtAll st' t b) \/
-                                  (forall ti z, In z (eset st' t ti b) <-> In z (eset st t ti b)).
+                                  (forall ti z, In z (eset st' (root_of sch t) ti b) <-> In z (eset st (root_of sch t) ti b)).
 
       Lemma tr_present s j : present sch st' s j = present sch st s j.
       Proof. apply present_fc. apply Hfc. Qed.
@@ -142,8 +149,9 @@ Section Write.
 
       Lemma SSoundAt_tr r f : SSoundAt st r f -> SSoundAt st' r f.
       Proof.
-        intros H. destruct (HS r f) as [A|A]; [exact A|]. intros v x Hx. destruct (H v x (A v x Hx)) as [B C].
-        split; [exact B | apply HSet; assumption].
+        intros H. destruct (HS r f) as [A|A]; [exact A|]. intros v x Hx. destruct (H v x (A v x Hx)) as [s0 [B0 [B [P C]]]].
+        exists s0. rewrite tr_present. split; [exact B0|]. split; [exact B|]. split; [exact P|].
+        rewrite <- B0. apply (HSet s0 x f v B). rewrite B0. exact C.
       Qed.
 
       Lemma BSoundAt_tr t b : BSoundAt st t b -> BSoundAt st' t b.
@@ -160,9 +168,8 @@ Section Write.
         - apply SSoundAt_tr.
         - intros [H1 H2]. split; [apply BSoundAt_tr; exact H1|].
           destruct (HB t b) as [[_ A]|A]; [eapply A; eauto|].
-          intros v Hf Hn. rewrite tr_get_field in Hf. apply A. apply H2; assumption.
-        - intros H v Hf Hn. rewrite tr_get_field in Hf. intros Hnone. apply (H v Hf Hn).
-          apply (get_ent_none_fc st st' t v Hfc). exact Hnone.
+          intros v Hf Hn. rewrite tr_get_field in Hf. destruct (H2 v Hf Hn) as [P Q]. split; [apply A; exact P | rewrite tr_present; exact Q].
+        - intros H v Hf Hn. rewrite tr_get_field in Hf. rewrite tr_present. apply (H v Hf Hn).
       Qed.
 
       Lemma Mid_tr : FSound G1 st' -> CSound G1 st' -> LSound gnone st' -> Mid st -> Mid st'.
@@ -173,15 +180,17 @@ Section Write.
           destruct (MU r f v x Hx) as [s [nl [B [C [D E]]]]]. exists s, nl. repeat split; try assumption.
           unfold NoTraceInv.fbytes in *. rewrite tr_present, tr_get_field. exact E.
         - intros r f. destruct (HS r f) as [A|A]; [apply SSoundAt_Mid; exact A|]. intros v x Hx.
-          destruct (MS r f v x (A v x Hx)) as [B [C|C]]; (split; [exact B|]); [left; apply HSet; assumption | right; exact C].
+          destruct (MS r f v x (A v x Hx)) as [s0 [B0 [B [[P C]|C]]]]; exists s0; (split; [exact B0|]); (split; [exact B|]).
+          * left. rewrite tr_present. split; [exact P|]. rewrite <- B0. apply (HSet s0 x f v B). rewrite B0. exact C.
+          * right. exact C.
         - intros t b. destruct (HB t b) as [[A _]|A]; [apply BSoundAt_Mid; exact A|]. intros s f nl ti x Hin Hx. apply A in Hx.
           destruct (MB t b s f nl ti x Hin Hx) as [B C]. split; [exact B|].
           unfold NoTraceInv.fbytes in *. rewrite tr_present, tr_get_field. exact C.
         - intros s f t b nl Hin Hrs. destruct (HB t b) as [[_ A]|A]; [left; eapply A; eauto|].
           destruct (MP s f t b nl Hin Hrs) as [P|P].
-          + left. intros v Hf Hn. rewrite tr_get_field in Hf. apply A. apply P; assumption.
+          + left. intros v Hf Hn. rewrite tr_get_field in Hf. destruct (P v Hf Hn) as [P1 P2]. split; [apply A; exact P1 | rewrite tr_present; exact P2].
           + right. intros v Hv. apply A. apply P. exact Hv.
-        - intros r j Hj Hnone. apply (ME r j Hj). apply (get_ent_none_fc st st' r j Hfc). exact Hnone.
+        - intros s j Hj. rewrite tr_present. apply (ME s j Hj).
       Qed.
     End Transfer.
   End Mid.
@@ -195,12 +204,12 @@ Section Write.
     assert (Hg : forall s j f, get_field sch st' s j f = get_field sch st s j f) by (intros; apply get_field_ents_eq; exact He).
     assert (Hes : forall r j f, eset st' r j f = eset st r j f) by (intros; apply eset_ents_eq; exact He).
     refine (conj _ (conj _ _)).
-    - intros s f t b nl y v Hin Hgn Hpy Hf Hn. rewrite Hes. rewrite Hp in Hpy. rewrite Hg in Hf. eapply HF; eauto.
-    - intros s f t nl y v Hin Hgn Hpy Hf Hn. rewrite (get_ent_ents_eq _ _ _ _ He). rewrite Hp in Hpy. rewrite Hg in Hf. eapply HC; eauto.
-    - intros s lf os of_ x t Hin Hgn Ht. rewrite Hes in *. eapply HL; eauto.
+    - intros s f t b nl y v Hin Hgn Hpy Hf Hn. rewrite Hes. rewrite Hp in Hpy. rewrite Hg in Hf. rewrite Hp. eapply HF; eauto.
+    - intros s f t nl y v Hin Hgn Hpy Hf Hn. rewrite Hp in Hpy. rewrite Hg in Hf. rewrite Hp. eapply HC; eauto.
+    - intros s lf os of_ x t Hin Hgn Ht. rewrite Hes in *. rewrite !Hp. eapply HL; eauto.
   Qed.
 
-  (* b is the back-reference set of a foreign-key index of root store R on target t *)
+  (* b is the back-reference set of a foreign-key index of a store of root R on target t *)
   Lemma FCL_backref_del R i st s f t b nl ti :
     In (CFkIndex f t b nl) (cons_of sch s) -> root_of sch s = R ->
     FSound (G1 R i) st -> CSound (G1 R i) st -> LSound gnone st ->
@@ -208,23 +217,22 @@ Section Write.
     FSound (G1 R i) st' /\ CSound (G1 R i) st' /\ LSound gnone st'.
   Proof.
     intros Hin Hr HF HC HL st'.
-    pose proof (wp_fk_t sch W _ _ _ _ _ Hin) as [_ Hrt].
-    destruct (wp_cons_root sch W s _ Hin) as [_ Hrs]. cbn in Hrs.
     assert (Hp : forall s j, present sch st' s j = present sch st s j) by (intros; apply present_backref_del).
     assert (Hg : forall s j f, get_field sch st' s j f = get_field sch st s j f) by (intros; apply get_field_backref_del).
-    assert (Hes : forall r j f z, In z (eset st' r j f) <-> In z (eset st r j f) /\ ~ (r = t /\ j = ti /\ f = b /\ z = i)).
-    { intros. unfold st'. rewrite eset_backref_del, Hrt. reflexivity. }
+    assert (Hes : forall r j f z, In z (eset st' r j f) <-> In z (eset st r j f) /\ ~ (r = root_of sch t /\ j = ti /\ f = b /\ z = i)).
+    { intros. unfold st'. rewrite eset_backref_del. reflexivity. }
     refine (conj _ (conj _ _)).
-    - intros s1 f1 t1 b1 nl1 y v Hin1 Hgn Hpy Hf Hn. rewrite Hp in Hpy. rewrite Hg in Hf. apply Hes. split.
-      + eapply HF; eauto.
-      + intros [-> [_ [-> ->]]]. apply Hgn. destruct (wp_buniq sch W _ _ _ _ _ _ _ _ Hin1 Hin) as [-> _].
-        right. split; [congruence | reflexivity].
-    - intros s1 f1 t1 nl1 y v Hin1 Hgn Hpy Hf Hn. rewrite Hp in Hpy. rewrite Hg in Hf. intros Hnone.
+    - intros s1 f1 t1 b1 nl1 y v Hin1 Hgn Hpy Hf Hn. rewrite Hp in Hpy. rewrite Hg in Hf.
+      destruct (HF s1 f1 t1 b1 nl1 y v Hin1 Hgn Hpy Hf Hn) as [A B]. rewrite Hp. split; [|exact B]. apply Hes. split.
+      + exact A.
+      + intros [E1 [_ [-> ->]]]. apply Hgn. destruct (wp_buniq sch W _ _ _ _ _ _ _ _ _ Hin1 Hin E1) as [-> _].
+        right. split; [exact Hr | reflexivity].
+    - intros s1 f1 t1 nl1 y v Hin1 Hgn Hpy Hf Hn. rewrite Hp in Hpy. rewrite Hg in Hf. rewrite Hp.
       apply (HC s1 f1 t1 nl1 y v Hin1 Hgn Hpy Hf Hn).
-      apply (get_ent_none_fc st st' t1 v (backref_del_fc sch st t ti b i)). exact Hnone.
-    - intros s1 lf os of_ x t0 Hin1 Hgn Ht0. apply Hes in Ht0 as [Ht0 _]. apply Hes. split.
-      + eapply HL; eauto.
-      + intros [-> [_ [-> _]]]. apply (wp_link_sym sch W) in Hin1. eapply (wp_disj_bl sch W); [exact Hin | exact Hin1 | reflexivity].
+    - intros s1 lf os of_ x t0 Hin1 Hgn Ht0. apply Hes in Ht0 as [Ht0 _].
+      destruct (HL s1 lf os of_ x t0 Hin1 Hgn Ht0) as [A [B C]]. rewrite !Hp. split; [|split; assumption]. apply Hes. split.
+      + exact A.
+      + intros [E1 [_ [E2 _]]]. apply (wp_link_sym sch W) in Hin1. subst of_. eapply (wp_disj_bl sch W); [exact Hin | exact Hin1 | exact E1 | reflexivity].
   Qed.
 
   Lemma FCL_backref_add (G : gset) st s f t b nl ti i :
@@ -234,19 +242,18 @@ Section Write.
     FSound G st' /\ CSound G st' /\ LSound gnone st'.
   Proof.
     intros Hin HF HC HL st'.
-    pose proof (wp_fk_t sch W _ _ _ _ _ Hin) as [_ Hrt].
     assert (Hp : forall s j, present sch st' s j = present sch st s j) by (intros; apply present_backref_add).
     assert (Hg : forall s j f, get_field sch st' s j f = get_field sch st s j f) by (intros; apply get_field_backref_add).
-    assert (Hes : forall r j f z, In z (eset st' r j f) <-> In z (eset st r j f) \/ (r = t /\ j = ti /\ f = b /\ z = i /\ get_ent st r j <> None)).
-    { intros. unfold st'. rewrite eset_backref_add, Hrt. reflexivity. }
+    assert (Hes : forall r j f z, In z (eset st' r j f) <-> In z (eset st r j f) \/ (r = root_of sch t /\ j = ti /\ f = b /\ z = i /\ get_ent st r j <> None)).
+    { intros. unfold st'. rewrite eset_backref_add. reflexivity. }
     refine (conj _ (conj _ _)).
-    - intros s1 f1 t1 b1 nl1 y v Hin1 Hgn Hpy Hf Hn. rewrite Hp in Hpy. rewrite Hg in Hf. apply Hes. left. eapply HF; eauto.
-    - intros s1 f1 t1 nl1 y v Hin1 Hgn Hpy Hf Hn. rewrite Hp in Hpy. rewrite Hg in Hf. intros Hnone.
+    - intros s1 f1 t1 b1 nl1 y v Hin1 Hgn Hpy Hf Hn. rewrite Hp in Hpy. rewrite Hg in Hf.
+      destruct (HF s1 f1 t1 b1 nl1 y v Hin1 Hgn Hpy Hf Hn) as [A B]. rewrite Hp. split; [|exact B]. apply Hes. left. exact A.
+    - intros s1 f1 t1 nl1 y v Hin1 Hgn Hpy Hf Hn. rewrite Hp in Hpy. rewrite Hg in Hf. rewrite Hp.
       apply (HC s1 f1 t1 nl1 y v Hin1 Hgn Hpy Hf Hn).
-      apply (get_ent_none_fc st st' t1 v (backref_add_fc sch st t ti b i)). exact Hnone.
-    - intros s1 lf os of_ x t0 Hin1 Hgn Ht0. apply Hes in Ht0 as [Ht0|[-> [_ [-> _]]]].
-      + apply Hes. left. eapply HL; eauto.
-      + exfalso. eapply (wp_disj_bl sch W); [exact Hin | exact Hin1 | reflexivity].
+    - intros s1 lf os of_ x t0 Hin1 Hgn Ht0. apply Hes in Ht0 as [Ht0|[E1 [_ [E2 _]]]].
+      + destruct (HL s1 lf os of_ x t0 Hin1 Hgn Ht0) as [A [B C]]. rewrite !Hp. split; [|split; assumption]. apply Hes. left. exact A.
+      + exfalso. subst lf. eapply (wp_disj_bl sch W); [exact Hin | exact Hin1 | exact E1 | reflexivity].
   Qed.
 
   (* ---- the hooks after PersistEntity ---- *)
@@ -297,8 +304,8 @@ Section Write.
       assert (HU : forall r f0, USoundAt st' r f0 \/ uidx st' r f0 = uidx st r f0).
       { intros r f0. destruct (name_pair_dec R f r f0) as [[<- <-]|Hne]; [left; exact Hs | right; apply upd2_other; exact Hne]. }
       assert (HS : forall r f0, SSoundAt st' r f0 \/ (forall v z, In z (sbucket st' r f0 v) -> In z (sbucket st r f0 v))) by (intros; right; auto).
-      assert (HSet : forall r j f0 z, In (CSetIdx f0) (cons_of sch r) -> In z (eset st r j f0) -> In z (eset st' r j f0)) by auto.
-      assert (HB : forall t b, (BSoundAt st' t b /\ FAtAll R i st' t b) \/ (forall ti z, In z (eset st' t ti b) <-> In z (eset st t ti b))) by (intros; right; reflexivity).
+      assert (HSet : forall s0 j f0 z, In (CSetIdx f0) (cons_of sch s0) -> In z (eset st (root_of sch s0) j f0) -> In z (eset st' (root_of sch s0) j f0)) by auto.
+      assert (HB : forall t b, (BSoundAt st' t b /\ FAtAll R i st' t b) \/ (forall ti z, In z (eset st' (root_of sch t) ti b) <-> In z (eset st (root_of sch t) ti b))) by (intros; right; reflexivity).
       destruct HMid as [_ [_ [_ [HF [HC [HL _]]]]]].
       destruct (FCL_ents_eq (G1 R i) gnone st st' eq_refl HF HC HL) as [HF' [HC' HL']].
       split; [exact Hfc|]. split; [exact (Mid_tr st0 R i st st' Hfc HU HS HSet HB HF' HC' HL' HMid)|].
@@ -351,38 +358,32 @@ Section Write.
 
     Hypothesis Hupd : ic_create c = false -> present sch st0 (ic_store c) i = true.
 
-    Lemma Rs_root k : In k (cons_of sch s) -> match k with CUnique _ _ => True | CSystem => True | _ => s = R end.
-    Proof.
-      intros Hin. pose proof (wp_cons_root sch W s k Hin) as H.
-      destruct k; try exact I; destruct H as [_ H]; unfold s in *; congruence.
-    Qed.
-
     (* a hook that rewrites the set index (R, f) and repairs it *)
     Lemma Post_sidx f st' : In (CSetIdx f) (cons_of sch s) ->
       ents st' = ents st -> uidx st' = uidx st ->
       (forall r f0 v z, R <> r \/ f <> f0 -> In z (sbucket st' r f0 v) -> In z (sbucket st r f0 v)) ->
       SSoundAt st' R f -> Post (CSetIdx f) st'.
     Proof.
-      intros Hin He Hu Hoth Hs. pose proof (Rs_root _ Hin) as HsR. cbn in HsR.
+      intros Hin He Hu Hoth Hs.
       assert (Hfc : ents_fc_eq st st') by (apply ents_eq_fc; exact He).
       assert (HU : forall r f0, USoundAt st' r f0 \/ uidx st' r f0 = uidx st r f0) by (intros; right; rewrite Hu; reflexivity).
       assert (HS : forall r f0, SSoundAt st' r f0 \/ (forall v z, In z (sbucket st' r f0 v) -> In z (sbucket st r f0 v))).
       { intros r f0. destruct (name_pair_dec R f r f0) as [[<- <-]|Hne]; [left; exact Hs | right; intros v z; apply Hoth; exact Hne]. }
-      assert (HSet : forall r j f0 z, In (CSetIdx f0) (cons_of sch r) -> In z (eset st r j f0) -> In z (eset st' r j f0))
-        by (intros r j f0 z _ Hz; rewrite (eset_ents_eq _ _ _ _ _ He); exact Hz).
-      assert (HB : forall t b, (BSoundAt st' t b /\ FAtAll R i st' t b) \/ (forall ti z, In z (eset st' t ti b) <-> In z (eset st t ti b)))
+      assert (HSet : forall s0 j f0 z, In (CSetIdx f0) (cons_of sch s0) -> In z (eset st (root_of sch s0) j f0) -> In z (eset st' (root_of sch s0) j f0))
+        by (intros s0 j f0 z _ Hz; rewrite (eset_ents_eq _ _ _ _ _ He); exact Hz).
+      assert (HB : forall t b, (BSoundAt st' t b /\ FAtAll R i st' t b) \/ (forall ti z, In z (eset st' (root_of sch t) ti b) <-> In z (eset st (root_of sch t) ti b)))
         by (intros; right; intros; rewrite (eset_ents_eq _ _ _ _ _ He); reflexivity).
       pose proof HMid as [_ [_ [_ [HF [HC [HL _]]]]]].
       destruct (FCL_ents_eq (G1 R i) gnone st st' He HF HC HL) as [HF' [HC' HL']].
       split; [exact Hfc|]. split; [exact (Mid_tr st0 R i st st' Hfc HU HS HSet HB HF' HC' HL' HMid)|].
-      split; [cbn [DoneK]; rewrite HsR; exact Hs|].
+      split; [cbn [DoneK]; unfold s; rewrite Hr; exact Hs|].
       intros s2 k2 Hr2 Hin2. apply (DoneK_tr R i st st' Hfc HU HS HSet HB s2 k2 Hr2 Hin2).
     Qed.
 
     Lemma au_setidx f sv st' : In (CSetIdx f) (cons_of sch s) -> SvOK st0 c (CSetIdx f) sv ->
       after_update_one sch st c (CSetIdx f) sv = Ok st' -> Post (CSetIdx f) st'.
     Proof.
-      intros Hin Hsv H. pose proof (Rs_root _ Hin) as HsR. cbn in HsR.
+      intros Hin Hsv H.
       cbn [after_update_one SvOK] in *. rewrite Hi in *. rewrite Hr in H. fold s in H, Hsv.
       set (new := get_set sch st s i f) in *. set (old := sv_set sv) in *.
       assert (Hnew : forall st1, ents st1 = ents st -> forall v, In v new <-> In v (eset st1 R i f)).
@@ -393,14 +394,17 @@ Section Write.
       assert (Hsound : forall st1, ents st1 = ents st ->
          (forall v x, In x (sbucket st1 R f v) -> (x = i /\ In v new) \/ (In x (sbucket st R f v) /\ (x = i -> In v old -> In v new))) ->
          SSoundAt st1 R f).
-      { intros st1 He Hent v x Hx. rewrite <- HsR. split; [exact Hin|]. rewrite HsR.
+      { intros st1 He Hent v x Hx.
+        assert (Hp1 : forall s1 j, present sch st1 s1 j = present sch st s1 j) by (intros; apply present_ents_eq; exact He).
         destruct (Hent v x Hx) as [[-> Hv]|[Hx0 Himp]].
-        - apply (Hnew st1 He). exact Hv.
-        - destruct (MS R f v x Hx0) as [_ [Hv|[_ [-> Hv]]]].
-          + rewrite (eset_ents_eq _ _ _ _ _ He). exact Hv.
-          + apply (Hnew st1 He). apply Himp; [reflexivity | apply Hold; exact Hv]. }
+        - exists s. rewrite Hp1. split; [exact Hr|]. split; [exact Hin|]. split; [exact Hpres|]. apply (Hnew st1 He). exact Hv.
+        - destruct (MS R f v x Hx0) as [s1 [A1 [B1 [[P Hv]|[_ [-> [P Hv]]]]]]].
+          + exists s1. rewrite Hp1. split; [exact A1|]. split; [exact B1|]. split; [exact P|]. rewrite (eset_ents_eq _ _ _ _ _ He). exact Hv.
+          + assert (s1 = s) as -> by (eapply (wp_sown sch W); [rewrite A1; symmetry; exact Hr | exact B1 | exact Hin]).
+            exists s. rewrite Hp1. split; [exact Hr|]. split; [exact Hin|]. split; [exact Hpres|].
+            apply (Hnew st1 He). apply Himp; [reflexivity | apply Hold; exact Hv]. }
       destruct (strs_eqb old new) eqn:Eq.
-      - inversion H; subst st'. apply strs_eqb_eq in Eq. apply Post_same. cbn [DoneK]. rewrite HsR.
+      - inversion H; subst st'. apply strs_eqb_eq in Eq. apply Post_same. cbn [DoneK]. unfold s. rewrite Hr.
         apply (Hsound st eq_refl). intros v x Hx. right. split; [exact Hx | intros _ Hv; rewrite <- Eq; exact Hv].
       - destruct (negb _); [discriminate|]. inversion H; subst st'. clear H.
         set (stA := fold_left (fun acc v => sidx_remove acc R f v i) old st).
@@ -417,10 +421,10 @@ Section Write.
           * left. split; [reflexivity | exact Hv].
     Qed.
 
-    (* a hook that rewrites the back-reference sets (t, b) and repairs them *)
+    (* a hook that rewrites the back-reference sets (root of t, b) and repairs them *)
     Lemma Post_bset f t b nl st' : In (CFkIndex f t b nl) (cons_of sch s) ->
       ents_fc_eq st st' -> uidx st' = uidx st -> sidx st' = sidx st ->
-      (forall r j f0 z, t <> r \/ b <> f0 -> (In z (eset st' r j f0) <-> In z (eset st r j f0))) ->
+      (forall r j f0 z, root_of sch t <> r \/ b <> f0 -> (In z (eset st' r j f0) <-> In z (eset st r j f0))) ->
       FSound (G1 R i) st' -> CSound (G1 R i) st' -> LSound gnone st' ->
       BSoundAt st' t b -> FAt i st' s f t b -> Post (CFkIndex f t b nl) st'.
     Proof.
@@ -428,12 +432,16 @@ Section Write.
       assert (HU : forall r f0, USoundAt st' r f0 \/ uidx st' r f0 = uidx st r f0) by (intros; right; rewrite Hu; reflexivity).
       assert (HS : forall r f0, SSoundAt st' r f0 \/ (forall v z, In z (sbucket st' r f0 v) -> In z (sbucket st r f0 v)))
         by (intros; right; intros v z Hz; unfold sbucket in *; rewrite Hsx in Hz; exact Hz).
-      assert (HSet : forall r j f0 z, In (CSetIdx f0) (cons_of sch r) -> In z (eset st r j f0) -> In z (eset st' r j f0)).
-      { intros r j f0 z Hc Hz. apply Hoth; [|exact Hz]. destruct (str_eq_dec t r) as [<-|Hne]; [|left; exact Hne].
-        right. intros <-. eapply (wp_disj_sb sch W); [exact Hc | exact Hin | reflexivity]. }
-      assert (HB : forall t0 b0, (BSoundAt st' t0 b0 /\ FAtAll R i st' t0 b0) \/ (forall ti z, In z (eset st' t0 ti b0) <-> In z (eset st t0 ti b0))).
-      { intros t0 b0. destruct (name_pair_dec t b t0 b0) as [[<- <-]|Hne]; [left|right; intros; apply Hoth; exact Hne].
-        split; [exact Hb|]. intros s2 f2 nl2 Hin2 Hr2. destruct (wp_buniq sch W _ _ _ _ _ _ _ _ Hin2 Hin) as [-> ->]. exact Hfa. }
+      assert (HSet : forall s0 j f0 z, In (CSetIdx f0) (cons_of sch s0) -> In z (eset st (root_of sch s0) j f0) -> In z (eset st' (root_of sch s0) j f0)).
+      { intros s0 j f0 z Hc Hz. apply Hoth; [|exact Hz]. destruct (str_eq_dec (root_of sch t) (root_of sch s0)) as [E|Hne]; [|left; exact Hne].
+        right. intros <-. eapply (wp_disj_sb sch W); [exact Hc | exact Hin | exact E | reflexivity]. }
+      assert (HB : forall t0 b0, (BSoundAt st' t0 b0 /\ FAtAll R i st' t0 b0) \/
+                                 (forall ti z, In z (eset st' (root_of sch t0) ti b0) <-> In z (eset st (root_of sch t0) ti b0))).
+      { intros t0 b0. destruct (name_pair_dec (root_of sch t) b (root_of sch t0) b0) as [[E1 <-]|Hne]; [left|right; intros; apply Hoth; exact Hne].
+        split.
+        - intros s1 f1 nl1 ti x Hin1 Hx. destruct (wp_buniq sch W _ _ _ _ _ _ _ _ _ Hin1 Hin (eq_sym E1)) as [-> [-> ->]].
+          exact (Hb _ _ _ ti x Hin1 Hx).
+        - intros s2 f2 nl2 Hin2 Hr2. destruct (wp_buniq sch W _ _ _ _ _ _ _ _ _ Hin2 Hin (eq_sym E1)) as [-> [-> ->]]. exact Hfa. }
       split; [exact Hfc|]. split; [exact (Mid_tr st0 R i st st' Hfc HU HS HSet HB HF' HC' HL' HMid)|].
       split; [cbn [DoneK]; split; assumption|].
       intros s2 k2 Hr2 Hin2. apply (DoneK_tr R i st st' Hfc HU HS HSet HB s2 k2 Hr2 Hin2).
@@ -442,17 +450,17 @@ Section Write.
     Lemma au_fkindex f t b nl sv st' : In (CFkIndex f t b nl) (cons_of sch s) -> SvOK st0 c (CFkIndex f t b nl) sv ->
       after_update_one sch st c (CFkIndex f t b nl) sv = Ok st' -> Post (CFkIndex f t b nl) st'.
     Proof.
-      intros Hin Hsv H. pose proof (Rs_root _ Hin) as HsR. cbn in HsR.
-      pose proof (wp_fk_t sch W _ _ _ _ _ Hin) as [Htc Hrt].
+      intros Hin Hsv H.
       cbn [after_update_one SvOK] in *. rewrite Hi in *. fold s in H, Hsv.
+      set (T := root_of sch t) in *.
       set (new := fv_bytes (get_field sch st s i f)) in *. set (old := sv_atom sv) in *.
-      pose proof HMid as [_ [_ [MB [HF [HC [HL [MP _]]]]]]].
+      pose proof HMid as [_ [_ [MB [HF [HC [HL [MP MPres]]]]]]].
       assert (Hsound : forall st1, ents_fc_eq st st1 ->
-         (forall ti x, In x (eset st1 t ti b) -> (x = i /\ ti = new /\ nonempty new = true) \/
-                        (In x (eset st t ti b) /\ (x = i -> ti = old -> nonempty old = true -> new = old))) ->
+         (forall ti x, In x (eset st1 T ti b) -> (x = i /\ ti = new /\ nonempty new = true) \/
+                        (In x (eset st T ti b) /\ (x = i -> ti = old -> nonempty old = true -> new = old))) ->
          BSoundAt st1 t b).
       { intros st1 Hfc Hent s1 f1 nl1 ti x Hin1 Hx.
-        destruct (wp_buniq sch W _ _ _ _ _ _ _ _ Hin1 Hin) as [-> ->].
+        destruct (wp_buniq sch W _ _ _ _ _ _ _ _ _ Hin1 Hin eq_refl) as [-> [-> _]].
         assert (Hp : forall j, present sch st1 s j = present sch st s j) by (intros; apply present_fc; apply Hfc).
         assert (Hg : forall j, get_field sch st1 s j f = get_field sch st s j f) by (intros; apply get_field_fc; apply Hfc).
         unfold NoTraceInv.fbytes. rewrite Hp, Hg.
@@ -466,44 +474,46 @@ Section Write.
       - inversion H; subst st'. apply andb_prop in Eshort as [Ecr Eq]. apply str_eqb_eq in Eq. apply negb_true_iff in Ecr.
         apply Post_same. cbn [DoneK]. split.
         + apply (Hsound st (ents_fc_eq_refl st)). intros ti x Hx. right. split; [exact Hx | intros; congruence].
-        + destruct (MP s f t b nl Hin Hr) as [P|P]; [exact P|]. intros v Hf Hn. apply P.
+        + destruct (MP s f t b nl Hin Hr) as [P|P]; [exact P|]. intros v Hf Hn.
           assert (fv_bytes (get_field sch st0 s i f) = v) as Hv0.
           { unfold NoTraceInv.fbytes in Hsv. rewrite <- Hsv. fold old. rewrite Eq. unfold new. rewrite Hf. reflexivity. }
           destruct HInv0 as [[_ [_ [_ [HF0 _]]]] HFS0].
           pose proof (fv_bytes_str st0 s i f v HFS0 (wp_fk_nosys sch W _ _ _ _ _ Hin) Hv0 Hn) as Hf0.
-          apply (HF0 s f t b nl i v Hin (fun x => x) (Hupd Ecr) Hf0 Hn).
+          destruct (HF0 s f t b nl i v Hin (fun x => x) (Hupd Ecr) Hf0 Hn) as [Q1 Q2].
+          split; [apply P; exact Q1 | apply MPres; exact Q2].
       - destruct (nonempty old) eqn:Eo.
         + destruct (present sch st t old) eqn:Epo; cbn [bind] in H; [|discriminate].
           set (st1 := backref_del sch st t old b i) in *.
           destruct (FCL_backref_del R i st s f t b nl old Hin Hr HF HC HL) as [HF1 [HC1 HL1]]. fold st1 in HF1, HC1, HL1.
           assert (Hfc1 : ents_fc_eq st st1) by apply backref_del_fc.
-          assert (He1 : forall r j f0 z, In z (eset st1 r j f0) <-> In z (eset st r j f0) /\ ~ (r = t /\ j = old /\ f0 = b /\ z = i)).
-          { intros. unfold st1. rewrite eset_backref_del, Hrt. reflexivity. }
+          assert (He1 : forall r j f0 z, In z (eset st1 r j f0) <-> In z (eset st r j f0) /\ ~ (r = T /\ j = old /\ f0 = b /\ z = i)).
+          { intros. unfold st1. rewrite eset_backref_del. reflexivity. }
           destruct (nonempty new) eqn:Enew.
           * destruct (present sch st1 t new) eqn:Epn; [|discriminate]. inversion H; subst st'. clear H.
             set (st2 := backref_add sch st1 t new b i).
             destruct (FCL_backref_add (G1 R i) st1 s f t b nl new i Hin HF1 HC1 HL1) as [HF2 [HC2 HL2]]. fold st2 in HF2, HC2, HL2.
-            assert (He2 : forall r j f0 z, In z (eset st2 r j f0) <-> In z (eset st1 r j f0) \/ (r = t /\ j = new /\ f0 = b /\ z = i /\ get_ent st1 r j <> None)).
-            { intros. unfold st2. rewrite eset_backref_add, Hrt. reflexivity. }
+            assert (He2 : forall r j f0 z, In z (eset st2 r j f0) <-> In z (eset st1 r j f0) \/ (r = T /\ j = new /\ f0 = b /\ z = i /\ get_ent st1 r j <> None)).
+            { intros. unfold st2. rewrite eset_backref_add. reflexivity. }
             apply (Post_bset f t b nl st2 Hin); try assumption.
             -- eapply ents_fc_eq_trans; [exact Hfc1 | apply backref_add_fc].
             -- unfold st2, st1. rewrite backref_add_uidx, backref_del_uidx. reflexivity.
             -- unfold st2, st1. rewrite backref_add_sidx, backref_del_sidx. reflexivity.
-            -- intros r j f0 z Hne. rewrite He2, He1. split.
+            -- intros r j f0 z Hne. rewrite He2, He1. fold T in Hne. split.
                ++ intros [[A _]|[A [_ [B _]]]]; [exact A | exfalso; destruct Hne; congruence].
                ++ intros A. left. split; [exact A|]. intros [A1 [_ [B1 _]]]. destruct Hne; congruence.
             -- apply Hsound; [eapply ents_fc_eq_trans; [exact Hfc1 | apply backref_add_fc]|].
                intros ti x Hx. apply He2 in Hx as [Hx|[_ [-> [_ [-> _]]]]].
                ++ apply He1 in Hx as [Hx Hn]. right. split; [exact Hx|]. intros -> -> _. exfalso. apply Hn. repeat split.
-               ++ left. repeat split. 
+               ++ left. repeat split.
             -- intros v Hf Hn. unfold st2, st1 in Hf. rewrite get_field_backref_add, get_field_backref_del in Hf.
                assert (new = v) as <- by (unfold new; rewrite Hf; reflexivity).
-               apply He2. right. repeat split. rewrite <- Hrt at 1. apply present_get_ent. exact Epn.
+               split; [|unfold st2; rewrite present_backref_add; exact Epn].
+               apply He2. right. repeat split. apply present_get_ent. exact Epn.
           * destruct nl; [|discriminate]. inversion H; subst st'. clear H.
             apply (Post_bset f t b true st1 Hin); try assumption.
             -- unfold st1. rewrite backref_del_uidx. reflexivity.
             -- unfold st1. rewrite backref_del_sidx. reflexivity.
-            -- intros r j f0 z Hne. rewrite He1. split; [intros [A _]; exact A|]. intros A. split; [exact A|].
+            -- intros r j f0 z Hne. rewrite He1. fold T in Hne. split; [intros [A _]; exact A|]. intros A. split; [exact A|].
                intros [A1 [_ [B1 _]]]. destruct Hne; congruence.
             -- apply Hsound; [exact Hfc1|]. intros ti x Hx. apply He1 in Hx as [Hx Hn]. right. split; [exact Hx|].
                intros -> -> _. exfalso. apply Hn. repeat split.
@@ -513,13 +523,13 @@ Section Write.
           * destruct (present sch st t new) eqn:Epn; [|discriminate]. inversion H; subst st'. clear H.
             set (st2 := backref_add sch st t new b i).
             destruct (FCL_backref_add (G1 R i) st s f t b nl new i Hin HF HC HL) as [HF2 [HC2 HL2]]. fold st2 in HF2, HC2, HL2.
-            assert (He2 : forall r j f0 z, In z (eset st2 r j f0) <-> In z (eset st r j f0) \/ (r = t /\ j = new /\ f0 = b /\ z = i /\ get_ent st r j <> None)).
-            { intros. unfold st2. rewrite eset_backref_add, Hrt. reflexivity. }
+            assert (He2 : forall r j f0 z, In z (eset st2 r j f0) <-> In z (eset st r j f0) \/ (r = T /\ j = new /\ f0 = b /\ z = i /\ get_ent st r j <> None)).
+            { intros. unfold st2. rewrite eset_backref_add. reflexivity. }
             apply (Post_bset f t b nl st2 Hin); try assumption.
             -- apply backref_add_fc.
             -- unfold st2. rewrite backref_add_uidx. reflexivity.
             -- unfold st2. rewrite backref_add_sidx. reflexivity.
-            -- intros r j f0 z Hne. rewrite He2. split; [|intros A; left; exact A].
+            -- intros r j f0 z Hne. rewrite He2. fold T in Hne. split; [|intros A; left; exact A].
                intros [A|[A [_ [B _]]]]; [exact A | exfalso; destruct Hne; congruence].
             -- apply Hsound; [apply backref_add_fc|].
                intros ti x Hx. apply He2 in Hx as [Hx|[_ [-> [_ [-> _]]]]].
@@ -527,7 +537,8 @@ Section Write.
                ++ left. repeat split.
             -- intros v Hf Hn. unfold st2 in Hf. rewrite get_field_backref_add in Hf.
                assert (new = v) as <- by (unfold new; rewrite Hf; reflexivity).
-               apply He2. right. repeat split. rewrite <- Hrt at 1. apply present_get_ent. exact Epn.
+               split; [|unfold st2; rewrite present_backref_add; exact Epn].
+               apply He2. right. repeat split. apply present_get_ent. exact Epn.
           * destruct nl; [|discriminate]. inversion H; subst st'. clear H.
             apply Post_same. cbn [DoneK]. split.
             -- apply (Hsound st (ents_fc_eq_refl st)). intros ti x Hx. right. split; [exact Hx|]. intros _ _ Ho. congruence.
@@ -537,7 +548,7 @@ Section Write.
     Lemma au_fkcons f t nl sv st' : In (CFkCons f t nl) (cons_of sch s) -> SvOK st0 c (CFkCons f t nl) sv ->
       after_update_one sch st c (CFkCons f t nl) sv = Ok st' -> Post (CFkCons f t nl) st'.
     Proof.
-      intros Hin Hsv H. pose proof (wp_fc_t sch W _ _ _ _ Hin) as [Htc Hrt].
+      intros Hin Hsv H.
       cbn [after_update_one SvOK] in *. rewrite Hi in *. fold s in H, Hsv.
       set (new := fv_bytes (get_field sch st s i f)) in *. set (old := sv_atom sv) in *.
       pose proof HMid as [_ [_ [_ [_ [_ [_ [_ ME]]]]]]].
@@ -552,8 +563,7 @@ Section Write.
       - destruct (nonempty new) eqn:Enew.
         + destruct (present sch st t new) eqn:Epn; [|discriminate]. inversion H; subst st'.
           apply Post_same. cbn [DoneK]. intros v Hf Hn.
-          assert (new = v) as <- by (unfold new; rewrite Hf; reflexivity).
-          rewrite <- Hrt. apply present_get_ent. exact Epn.
+          assert (new = v) as <- by (unfold new; rewrite Hf; reflexivity). exact Epn.
         + destruct nl; [|discriminate]. inversion H; subst st'.
           apply Post_same. cbn [DoneK]. intros v Hf Hn.
           assert (new = v) as Hnv by (unfold new; rewrite Hf; reflexivity). congruence.
